@@ -890,4 +890,72 @@ package serf
 // the name whose entry the inner loop is emitting (entries are never empty)
 //@ pure func curName(l *latestUserEvents) string { return asUserEvent(l.Events[0]).Name }
 
+// ---------------------------------------------------------------- lifecycle state (C34)
+
+// s.state is only touched with stateLock held; every critical section of every thread moves it forward
+// (alive < leaving < left < shutdown) or leaves it alone. Assumed of other threads whenever the lock is
+// taken, proved of each critical section below when it releases the lock.
+//@ lockrely Serf.stateLock: Serf.state nondecreasing 0..3
+//@ guards Serf.stateLock: Serf.state
+
+//@ func (m *memberlist.Memberlist) Shutdown() (err error)
+//@   trusted
+//@   logcalls
+//@   assigns
+//@ end
+//@ func (m *memberlist.Memberlist) Leave(timeout time.Duration) (err error)
+//@   trusted
+//@   logcalls
+//@   assigns
+//@ end
+//@ func (m *memberlist.Memberlist) Join(existing []string) (n int, err error)
+//@   trusted
+//@   logcalls
+//@   assigns
+//@ end
+
+// the shutdown channel is closed only once the state is shutdown
+//@ pure func wfLifecycle(s *Serf) bool {
+//@   return s != nil && s.memberlist != nil && s.shutdownCh != nil && 0 <= s.state && s.state <= SerfShutdown && (closed(s.shutdownCh) ==> s.state == SerfShutdown)
+//@ }
+
+//@ func (s *Serf) State() (st SerfState)
+//@   requires wf: wfLifecycle(s)
+//@   ensures not_before_entry [C34]: st >= old(s.state) && s.state == st
+//@ end
+
+//@ func (s *Serf) Shutdown() (err error)
+//@   requires wf: wfLifecycle(s)
+//@   oldlet c0 := callN()
+//@   oldlet closed0 := closed(s.shutdownCh)
+//@   ensures wf [C34]: wfLifecycle(s)
+//@   ensures forward [C34]: s.state >= old(s.state)
+//@   ensures repeated_shutdown_no_effect [C34]: old(s.state) == SerfShutdown ==> err == nil && callN() == c0 && closed(s.shutdownCh) == closed0
+//@   ensures shuts_down [C34]: s.state == SerfShutdown
+//@   ensures at_most_one_memberlist_shutdown [C34]: callN() <= c0+1
+//@ end
+
+//@ func (s *Serf) Leave() (err error)
+//@   requires wf: wfLifecycle(s) && wfSerf(s) && hasMember(s, s.config.NodeName)
+//@   requires snapshot_open: s.snapshotter != nil ==> s.snapshotter.leaveCh != nil && !closed(s.snapshotter.leaveCh)
+//@   requires eventch_open: s.config.EventCh == nil || !closed(s.config.EventCh)
+//@   oldlet c0 := callN()
+//@   oldlet q0 := logN("queued")
+//@   ensures wf [C34]: wfLifecycle(s)
+//@   ensures forward [C34]: s.state >= old(s.state)
+//@   # a leave after a completed leave succeeds without effect (unless a shutdown intervenes, which makes it an error)
+//@   ensures after_left_no_effect [C34]: old(s.state) == SerfLeft && s.state == SerfLeft ==> err == nil && callN() == c0 && logN("queued") == q0
+//@   ensures after_left_never_back [C34]: old(s.state) == SerfLeft ==> callN() == c0 && logN("queued") == q0
+//@   ensures second_leave_refused [C34]: old(s.state) == SerfLeaving && s.state == SerfLeaving ==> err != nil && callN() == c0 && logN("queued") == q0
+//@   ensures after_shutdown_refused [C34]: old(s.state) == SerfShutdown ==> err != nil && callN() == c0 && logN("queued") == q0 && s.state == SerfShutdown
+//@   ensures completed_leave [C34]: old(s.state) == SerfAlive && err == nil ==> s.state >= SerfLeaving
+//@ end
+
+//@ func (s *Serf) Join(existing []string, ignoreOld bool) (n int, err error)
+//@   requires wf: wfLifecycle(s) && wfMembers(s)
+//@   oldlet c0 := callN()
+//@   ensures forward [C34]: s.state >= old(s.state)
+//@   ensures refused_once_leaving [C34]: old(s.state) != SerfAlive ==> err != nil && n == 0 && callN() == c0
+//@ end
+
 // END-OF-CONTRACTS
